@@ -418,6 +418,8 @@ def families(tier):
     # Arc.cropped / split / reversed (Angle-domain harness shared with C04)
     for sw in (False, True):
         fams.append(('arc-cropped-flags-sweep%d' % sw, 'vf.props.c04', 'fam_cropped_flags', {'sw': sw}))
+        for via in ('split-first', 'split-second'):
+            fams.append(('arc-%s-flags-sweep%d' % (via, sw), 'vf.props.c04', 'fam_cropped_flags', {'sw': sw, 'via': via}))
     for la, sw in ((False, True), (True, False)) if tier == 'quick' else ((False, False), (False, True), (True, False), (True, True)):
         fams.append(('arc-reversed-p37-%d%d' % (la, sw), 'vf.props.c04', 'fam_reversed_cropped', {'rot': 'p37', 'la': la, 'sw': sw}))
     for n in (2, 3):
